@@ -49,11 +49,14 @@ def one_case(ctx, g, rng, length):
         blocks.append(cls(offset=off, size=bsz, byte_interval=bi))
 
     def observe():
+        nonlocal beyond
         c = bytes(bi.contents)
+        if len(c) <= bi.size:
+            beyond = False          # back inside the invariant (e.g. a later size assignment truncated)
         items.append([10]); impl.append([0, bi.size, bi.initialized_size, list(c)])
         if bi.initialized_size != len(c):
             problems.append("initialized_size %d but %d bytes stored" % (bi.initialized_size, len(c)))
-        if len(c) > bi.size:
+        if len(c) > bi.size and not beyond:
             problems.append("%d bytes stored in an interval of size %d" % (len(c), bi.size))
         for b in blocks:
             bc = bytes(b.contents)
@@ -77,6 +80,8 @@ def one_case(ctx, g, rng, length):
             ctx.count("block_views")
 
     def save_load():
+        if beyond:
+            return                  # more bytes than the size were assigned directly: outside the property
         buf = io.BytesIO()
         try:
             ir.save_protobuf_file(buf)
@@ -91,6 +96,7 @@ def one_case(ctx, g, rng, length):
             problems.append("after save/load size/contents are %d/%r, were %d/%r" % (bi2.size, bytes(bi2.contents), bi.size, bytes(bi.contents)))
         ctx.count("save_load")
 
+    beyond = False
     observe()
     for _ in range(length):
         if problems:
@@ -104,19 +110,30 @@ def one_case(ctx, g, rng, length):
             bi.size = v
             items.append([1, v]); impl.append([0])
             ctx.count("op:size" + ("<stored" if v < cur else (">=stored")))
-            if bytes(bi.contents) != old[:v] if v < cur else bytes(bi.contents) != old:
+            if (bytes(bi.contents) != old[:v]) if v < cur else (bytes(bi.contents) != old):
                 problems.append("size=%d with %d bytes stored left %r" % (v, cur, bytes(bi.contents)))
             if bi.size != v:
                 problems.append("size reads back %d after assigning %d" % (bi.size, v))
-        elif r < 0.8:
-            v = rng.choice([0, cur - 1, cur, cur + 1, cur + 3, bi.size, bi.size - 1, 1])
-            v = min(max(0, v), bi.size)
+        elif r < 0.75:
+            v = rng.choice([0, cur - 1, cur, cur + 1, cur + 3, bi.size, bi.size - 1, bi.size + 1, bi.size + 4, 1])
+            v = max(0, v)
+            osz = bi.size
             bi.initialized_size = v
             items.append([2, v]); impl.append([0])
-            ctx.count("op:init" + ("<stored" if v < cur else (">stored" if v > cur else "=stored")))
+            ctx.count("op:init" + ("<stored" if v < cur else (">stored" if v > cur else "=stored")) + (">size" if v > osz else ""))
             want = old[:v] + b"\0" * max(0, v - cur)
             if bytes(bi.contents) != want:
                 problems.append("initialized_size=%d on %r left %r" % (v, old, bytes(bi.contents)))
+        elif r < 0.85:
+            # `contents` is a plain attribute; direct assignment (bytes that fit, or -- outside the property's domain -- more)
+            n2 = rng.choice([0, 1, cur, bi.size, max(0, bi.size - 1), bi.size + 2])
+            nb = bytes(rng.randrange(256) for _ in range(n2))
+            fits = n2 <= bi.size
+            bi.contents = bytearray(nb)
+            items.append([4, list(nb)]); impl.append([0])
+            ctx.count("op:contents" + ("-fits" if fits else "-beyond-size"))
+            if not fits:
+                beyond = True
         elif cur:
             i, b = rng.randrange(cur), rng.randrange(256)
             bi.contents[i] = b
@@ -160,7 +177,7 @@ def run(ctx):
     ctx.cov["histories"] = nc
     ctx.cov["traces_validated_against_impl"] = nc
     ctx.cov["rule"] = ("random constructor arguments (size/initialized_size given or defaulted, 0-12 stored bytes, accepted and rejected combinations), then %d assignments of size "
-                       "(below, at, above the stored byte count), initialized_size (within size; pad and truncate) and in-place byte edits; 1-3 blocks per interval partly or wholly beyond "
+                       "(below, at, above the stored byte count), initialized_size (any value, also beyond the size: pad, truncate, grow), direct contents assignment and in-place byte edits; 1-3 blocks per interval partly or wholly beyond "
                        "the stored bytes; after every assignment all block views at every boundary +-1, and save/load of the owning IR on 30%% of the steps; non-trivial = more than 3 items" % ln)
     ctx.sample({"request": cases[0][0][:4], "first_items": cases[0][0][4][:6]})
 
